@@ -80,6 +80,65 @@ static void sweep_positions(const char *name, int len, int level, int gz, int cp
 	v_nontrivial(v_hash(ctxdesc, strlen(ctxdesc), 3));
 }
 
+/* exact-fit histories: the call that carries the flush request offers exactly as many bytes as the codec's internal staging buffer
+ * (history + input kept from earlier calls + this piece) still has room for, or 1-2 bytes fewer / more. The room is read from the
+ * live object after the preceding calls (steering only; the oracle is the usual flush-point check inside def_call). */
+static void exact_fit(int level, int gz, int cpu, int kind)
+{
+	enum { XL = 140000 };
+	static const int firsts[] = { 1, 100, 300, 1000, -40000, -70000 }; /* negative: that many bytes first (SYNC_FLUSH for 40000), then 100 more with NO_FLUSH */
+	if (!DST) {
+		DST = g_persist(sizeof *DST, G_END);
+		DLB = g_persist(ISAL_DEF_LVL3_MIN, G_END);
+	}
+	if (kind)
+		fill_xorshift(LIN, XL, 99);
+	else
+		for (int i = 0; i < XL; i++)
+			LIN[i] = (uint8_t)("flush point test data, quite repetitive. 0123456789 abcdefghi "[i % 61]);
+	DIN = LIN; DINLEN = XL; DLEVEL = level; DGZ = gz; DLBS = lvl_min[level];
+	cpu_set_level(cpu);
+	for (unsigned hi = 0; hi < 6; hi++)
+		for (int which = 0; which < 2; which++)
+			for (int d = -2; d <= 2; d++)
+				for (int fl = 1; fl < 3; fl++) {
+					g_strict_free = 1;
+					def_reset(8);
+					ex_depth = 0;
+					snprintf(ctxdesc, sizeof ctxdesc, "exact-fit(prefix) input=%s:%d level=%d wrapper=%s cpu=%s history=%d", kind ? "incompressible" : "period61", XL, level, gz_name[gz], cpu_level_name[cpu], firsts[hi]);
+					int r;
+					if (firsts[hi] > 0)
+						r = def_call(firsts[hi], -1, NO_FLUSH, 0, NULL);
+					else {
+						r = def_call(-firsts[hi], -1, firsts[hi] == -40000 ? SYNC_FLUSH : NO_FLUSH, 0, NULL);
+						if (r == EX_NEXT)
+							r = def_call(100, -1, NO_FLUSH, 0, NULL);
+					}
+					if (r != EX_NEXT) {
+						g_strict_free = 0;
+						continue;
+					}
+					uint32_t bv = DST->internal_state.b_bytes_valid, bp = DST->internal_state.b_bytes_processed;
+					uint32_t shift = which && bp > 32768 ? bp - 32768 : 0;
+					int n = (int)sizeof DST->internal_state.buffer - (int)(bv - shift) + d;
+					if ((which && !shift) || n <= 0 || DCUR.in_off + n > XL) {
+						g_strict_free = 0;
+						continue;
+					}
+					snprintf(ctxdesc, sizeof ctxdesc, "exact-fit input=%s:%d level=%d wrapper=%s cpu=%s history=%d then %d bytes (room in the staging buffer %+d) with %s", kind ? "incompressible" : "period61", XL, level,
+						 gz_name[gz], cpu_level_name[cpu], firsts[hi], n, d, flush_name[fl]);
+					r = def_call(n, -1, fl, 0, NULL);
+					if (r == EX_NEXT)
+						r = def_call(97, -1, NO_FLUSH, 0, NULL);
+					if (r == EX_NEXT)
+						def_finish_generously(NULL, 12);
+					g_strict_free = 0;
+					v_eval();
+					v_count("exact_fit_runs", 1);
+				}
+	v_nontrivial(v_hash(ctxdesc, strlen(ctxdesc), 5));
+}
+
 static void stateless_pairs(void)
 {
 	static uint8_t A[9000], B[9000], outA[20000], outB[20000], cat[40000], both[18000];
@@ -209,6 +268,21 @@ int main(int argc, char **argv)
 						sweep_positions(nm, len, level, variant % 2 ? IGZIP_GZIP : IGZIP_DEFLATE, cpus[ci], vcin[variant]);
 					}
 					SE_CONTIG = 0;
+				}
+	}
+	if (!v_part || !strcmp(v_part, "positions")) {
+		static const int cpus[] = { CPU_BASE, CPU_SSE, CPU_AVX2, CPU_AVX512G2 };
+		uint64_t unit = 700000;
+		for (int level = 0; level <= 3; level++)
+			for (int kind = 0; kind < 2; kind++)
+				for (int ci = 0; ci < 4; ci++) {
+					if (!v_thorough && ci != (level + kind) % 4)
+						continue;
+					if (!v_mine(unit++))
+						continue;
+					if (nfail > 20 || v_deadline_hit())
+						break;
+					exact_fit(level, (level + kind + ci) % 2 ? IGZIP_GZIP : IGZIP_DEFLATE, cpus[ci], kind);
 				}
 	}
 	if (!v_part || !strcmp(v_part, "stateless"))
